@@ -46,6 +46,13 @@ func applyOps(db walletdb.DB, ops []dop, failAtEnd bool) string {
 			switch o.kind {
 			case "put":
 				fmt.Fprintf(&log, "%v:%v;", o, bk.Put([]byte(o.a), []byte("v"+o.a)))
+			case "alias":
+				// two puts from one re-used buffer within the transaction
+				buf := []byte("first")
+				e1 := bk.Put([]byte("a"), buf)
+				copy(buf, "SECND")
+				e2 := bk.Put([]byte("b"), buf)
+				fmt.Fprintf(&log, "%v:%v,%v;", o, e1, e2)
 			case "put2":
 				fmt.Fprintf(&log, "%v:%v;", o, bk.Put([]byte(o.a), []byte("w")))
 			case "del":
@@ -127,7 +134,7 @@ func TestVFXMemdbDifferential(t *testing.T) {
 		for _, k := range []string{"a", "b"} {
 			alpha = append(alpha, dop{"put", k, where}, dop{"del", k, where}, dop{"get", k, where})
 		}
-		alpha = append(alpha, dop{"put2", "a", where}, dop{"cur", "a", where}, dop{"cur", "b", where}, dop{"seq", "", where})
+		alpha = append(alpha, dop{"put2", "a", where}, dop{"cur", "a", where}, dop{"cur", "b", where}, dop{"seq", "", where}, dop{"alias", "", where})
 	}
 	alpha = append(alpha, dop{"mk", "n", ""}, dop{"mkif", "n", ""}, dop{"rmb", "n", ""},
 		dop{"mk", "a", ""}, dop{"rmb", "a", ""}, dop{"put", "n", ""}, dop{"del", "n", ""}, dop{"get", "n", ""})
